@@ -1153,6 +1153,14 @@ func (w *c01World) liquidate(user sdk.AccAddress, v vaulttypes.Vault, gen1 bool,
 		w.tr.Count("op:seize:ok")
 		w.tr.Line("vault.msg", "seize", u(v.Id), "-", "-", "-", "-", env, "ok")
 		w.state()
+		if !gen1 && w.rng.Chance(30) {
+			// the next block's begin-blocker finds the fresh auction running: price update only, the vault books must not move
+			w.height++
+			w.now = w.now.Add(time.Duration(1+w.rng.Intn(600)) * time.Second)
+			w.ctx = w.ctx.WithBlockHeight(w.height).WithBlockTime(w.now)
+			w.auctionBlock2OpAt(false)
+			w.tr.Count("op:auctionblock2:running-auction")
+		}
 	} else {
 		w.state()
 	}
@@ -1605,7 +1613,7 @@ func TestC01(t *testing.T) {
 	tr := OpenTrace(t, "c01.trace")
 	defer tr.Close(t)
 	rng := NewRng(seed())
-	seqs := scale(30, 400)
+	seqs := scale(60, 400)
 	ops := scale(120, 300)
 	c01Corpus(t, tr)
 	c01CorpusTrigger2(t, tr)
@@ -1741,6 +1749,12 @@ func c01DecRel(a, b sdk.Int) string {
 func (w *c01World) reconfigOp() {
 	r := w.rng
 	p := w.products[r.Intn(len(w.products))]
+	if vs := w.vaultsOf(""); len(vs) > 0 && r.Chance(60) {
+		// mostly a product that has open vaults: a lowered ceiling / raised floor then actually bites
+		if q := w.productByID(vs[r.Intn(len(vs))].ExtendedPairVaultID); q != nil {
+			p = *q
+		}
+	}
 	ep, _ := w.app.AssetKeeper.GetPairsVault(w.ctx, p.id)
 	before := map[uint64]sdk.Int{}
 	for _, v := range w.app.VaultKeeper.GetVaults(w.ctx) {
@@ -1927,14 +1941,17 @@ func (w *c01World) reconfigOp() {
 // seized vault. Outside emergency shutdown the auction RESTARTS (new start price and end time; nothing in the vault books may
 // move, and a later bid settles it as usual). Under emergency shutdown `TriggerEsm` hands what is left back to the vault side:
 // one `esmReturn2` step per auction it worked on (recognised by the owner's vault having grown by the auction's remaining debt).
-func (w *c01World) auctionBlock2Op() bool {
+func (w *c01World) auctionBlock2Op() bool { return w.auctionBlock2OpAt(true) }
+
+// jump = false: the begin-blocker runs at the current block time (an auction that has not ended only has its price updated)
+func (w *c01World) auctionBlock2OpAt(jump bool) bool {
 	r := w.rng
 	aucs := w.openAuctions()
 	if len(aucs) == 0 {
 		return false
 	}
 	a := aucs[r.Intn(len(aucs))]
-	if !w.now.After(a.EndTime) && r.Chance(75) {
+	if jump && !w.now.After(a.EndTime) && r.Chance(75) {
 		w.now = a.EndTime.Add(time.Duration(1+r.Intn(600)) * time.Second)
 		w.height++
 		w.ctx = w.ctx.WithBlockHeight(w.height).WithBlockTime(w.now)
